@@ -477,6 +477,9 @@ class PureEval:
                 return B(self.st.ghost.get(f"passed:{e.args[0].value}:{e.args[1].value}", z3.BoolVal(True)))
             if n == "last": return B(self.st.ghost.get("last:" + e.args[0].value, z3.BoolVal(False)))
             if n == "count": return I(self.st.ghost.get("count:" + e.args[0].value, z3.IntVal(0)))
+            if n == "iterations":        # of loop #k of the function, over all executions of that loop
+                return I(self.st.ghost.get(f"count:__iter{e.args[0].value}", z3.IntVal(0)))
+            if n == "count_true": return I(self.st.ghost.get("counttrue:" + e.args[0].value, z3.IntVal(0)))
             if n == "tuple" or n == "list": return args[0] if args else EmptySeqP()
             if n == "set": return self.ex.to_setv(args[0], self.st)
             if n in ("all", "any"):
